@@ -54,6 +54,13 @@ def build(seed: int):
         k = rng.randrange(len(locs))
         locs[k] = dataclasses.replace(locs[k], _index=low)
     sws = [RichSwitch(_custom_name=RichString(f"newswitch{i}")) for i in range(ns)]
+    if sws and rng.random() < 0.5:
+        # a new switch that happens to be called like one the map already has (a different switch all the same)
+        from richchk.model.richchk.swnm.rich_swnm_section import RichSwnmSection
+        named = [s_.custom_name.value for sct in rich.chk_sections if isinstance(sct, RichSwnmSection)
+                 for s_ in sct.switches if s_.custom_name.value]
+        if named:
+            sws[rng.randrange(len(sws))] = RichSwitch(_custom_name=RichString(sorted(named)[rng.randrange(len(named))]))
     cws = [RichCuwpSlot(10 + i, 20 + i, 30 + i, _resource_amount=i, _cloaked=bool(i % 2)) for i in range(nc)]
     units = [UnitId.TERRAN_MARINE, UnitId.ZERG_ZERGLING, UnitId.PROTOSS_ZEALOT]
     trigs = []
